@@ -797,12 +797,12 @@ func (p *printer) expr1(expr ast.Expr, prec1, depth int) {
 			// parenthesis needed
 			p.print(token.LPAREN)
 			p.print(token.MUL)
-			p.expr(x.X)
+			p.expr1(x.X, prec, depth)
 			p.print(token.RPAREN)
 		} else {
 			// no parenthesis needed
 			p.print(token.MUL)
-			p.expr(x.X)
+			p.expr1(x.X, prec, depth)
 		}
 
 	case *ast.UnaryExpr:
